@@ -394,6 +394,9 @@ func (o *fnOrigin) RoundTrip(req *http.Request) (*http.Response, error) {
 	}
 	h := http.Header{"Etag": {fnETag(r, v, g)}, "Cache-Control": {fnPolicies[r]}, "Vary": {"X-V"},
 		"X-Res": {fmt.Sprint(r)}, "X-Var": {v}, "X-Gen": {fmt.Sprint(g)}, "Date": {time.Now().UTC().Format(http.TimeFormat)}}
+	if r == 0 && v == "b" {
+		h.Del("Etag") // a variant without any validator: its background revalidation is unconditional
+	}
 	if inm := req.Header.Get("If-None-Match"); inm != "" && r == 0 && n%4 == 0 {
 		// a failing background validation of the stale-while-revalidate + stale-if-error resource
 		return mk(503, http.Header{"Content-Type": {"text/plain"}}, "unavailable"), nil
@@ -501,7 +504,7 @@ func TestConcRace(t *testing.T) {
 							report("wrong resource or variant: asked r%d v=%s, got r%s v=%s (%s)", r, v, resp.Header.Get("X-Res"), resp.Header.Get("X-Var"), st)
 						case string(body) != fnContent(r, v, gen):
 							report("body does not match its header fields (%s): r%d v=%s gen=%d len=%d (%s)", when, r, v, gen, len(body), st)
-						case resp.Header.Get("Etag") != fnETag(r, v, gen):
+						case resp.Header.Get("Etag") != fnETag(r, v, gen) && !(r == 0 && v == "b" && resp.Header.Get("Etag") == ""):
 							report("ETag %s does not match X-Gen %d", resp.Header.Get("Etag"), gen)
 						}
 					}
@@ -517,6 +520,11 @@ func TestConcRace(t *testing.T) {
 						mu.Unlock()
 					} else {
 						readAndCheck(resp, r, v, st, "read at once")
+						// the body is closed: the request is the caller's again, to change or reuse (net/http.RoundTripper);
+						// background work of the transport must have its own copy
+						req.Header.Set("X-V", g.pick("a", "b", "c", "z"))
+						req.Header.Set("X-Caller-Scratch", fmt.Sprint(i))
+						before = reqSnapshot(req)
 					}
 					// the caller owns the response now: write to it, keep it
 					resp.Header.Set("X-Owner-Mark", fmt.Sprintf("%d-%d", w, i))
